@@ -21,8 +21,8 @@ func init() {
 			"(in-out-wiring) the pass-through / map-key helper derivations take each field from the same-role field of the right side; " +
 			"(same-handlers-both-arms) the three handler managers run the same handler list in the stream arm and in the value arm, the value arm propagating errors; " +
 			"(key-wrappers) input/output key wrappers replace both .i and .t and the helper; " +
-			"(stream-substrate) the copy/merge machinery the streaming paradigms run on keeps positions, closes all sources and dispatches consistently (shared with C08); (no-compile-time-stream) no single-use stream created at compile time is captured by a reusable run-time handler.",
-		decided:    []string{"derivation-total", "adapter-shape", "failure-agreement", "pair-complete", "in-out-wiring", "same-handlers-both-arms", "key-wrappers", "stream-substrate", "no-compile-time-stream"},
+			"(stream-substrate) the copy/merge machinery the streaming paradigms run on keeps positions, closes all sources and dispatches consistently (shared with C08); (stream-elem-type) a handler whose value form provably yields a concrete type T does not pack its stream form as a stream of any when some consumer unpacks streams of exactly T (producer/consumer agreement on the packed chunk type; a mismatch breaks the stream paradigms only); (no-compile-time-stream) no single-use stream created at compile time is captured by a reusable run-time handler.",
+		decided:    []string{"derivation-total", "adapter-shape", "failure-agreement", "pair-complete", "in-out-wiring", "same-handlers-both-arms", "key-wrappers", "stream-substrate", "stream-elem-type", "no-compile-time-stream"},
 		notDecided: []string{"value equality of the outputs across paradigms", "chunking independence (C14)", "behaviour of user node implementations"},
 		run:        runC04,
 	})
@@ -387,6 +387,10 @@ func runC04(w *World, r *Report) {
 	copyCellChecks(w, r, "C04.stream-substrate")
 
 	// ---- no-compile-time-stream
+	// ---- stream-elem-type: the stream form of a handler yields chunks of the type the value form yields
+	r.Rule("C04.stream-elem-type", "a handler whose value form returns a concrete type T packs its stream form as a stream of T, not of any, whenever some consumer unpacks streams of exactly T", 3)
+	streamElemTypeChecks(w, r, "C04.stream-elem-type")
+
 	r.Rule("C04.no-compile-time-stream", "run-time handler literals created at compile time capture no stream object", 1)
 	ncl := 0
 	for _, top := range []*ssa.Function{w.Fn("compose", "graph.compile"), w.Fn("compose", "Workflow.compile"), w.Fn("compose", "graph.updateToValidateMap"), w.Fn("compose", "validateFieldMapping"), w.Fn("compose", "graph.addBranch")} {
@@ -576,4 +580,152 @@ func derivedFromErr(v ssa.Value, e ssa.Value, d int) bool {
 		return derivedFromErr(x.X, e, d+1)
 	}
 	return false
+}
+
+// streamElemTypeChecks: producer/consumer agreement on the static chunk type of packed streams.
+// unpackStreamReader[T] accepts a packed stream only if it was packed as exactly T (or T is an interface);
+// a handler that re-packs through `any` although its value form provably yields a concrete T breaks the
+// stream paradigm only (the value form keeps working): the typed consumer panics / fails.
+func streamElemTypeChecks(w *World, r *Report, rule string) {
+	pack := w.Fn("compose", "packStreamReader")
+	unpack := w.Fn("compose", "unpackStreamReader")
+	isInst := func(c ssa.CallInstruction, gen *ssa.Function) (*ssa.Function, bool) {
+		f, ok := c.Common().Value.(*ssa.Function)
+		if !ok || origin(f) != gen {
+			return nil, false
+		}
+		return f, true
+	}
+	// strict consumers: unpackStreamReader[T] with concrete, non-interface T
+	strict := map[string]token.Pos{}
+	for _, fn := range w.RepoFuncs("compose") {
+		instrs(fn, func(in ssa.Instruction) {
+			c, ok := in.(ssa.CallInstruction)
+			if !ok {
+				return
+			}
+			if f, ok := isInst(c, unpack); ok && len(f.TypeArgs()) == 1 {
+				t := f.TypeArgs()[0]
+				if _, isTP := t.(*types.TypeParam); isTP {
+					return
+				}
+				if _, isI := t.Underlying().(*types.Interface); isI {
+					return
+				}
+				strict[t.String()] = c.Pos()
+			}
+		})
+	}
+	if len(strict) == 0 {
+		undecidedf("%s: no strict unpackStreamReader[T] consumer found", rule)
+	}
+	// resolve a function value to its literal, through captured variables
+	var resolveFn func(v ssa.Value, d int) *ssa.Function
+	resolveFn = func(v ssa.Value, d int) *ssa.Function {
+		if d > 6 || v == nil {
+			return nil
+		}
+		if f := staticCalleeOfValue(v); f != nil {
+			return f
+		}
+		switch x := v.(type) {
+		case *ssa.UnOp:
+			switch a := x.X.(type) {
+			case *ssa.Alloc:
+				var out *ssa.Function
+				for _, ref := range *a.Referrers() {
+					if st, ok := ref.(*ssa.Store); ok && st.Addr == ssa.Value(a) {
+						out = resolveFn(st.Val, d+1)
+					}
+				}
+				return out
+			case *ssa.FreeVar:
+				lit := a.Parent()
+				for i, fv := range lit.FreeVars {
+					if fv != a || lit.Parent() == nil {
+						continue
+					}
+					var out *ssa.Function
+					instrs(lit.Parent(), func(in ssa.Instruction) {
+						if mc, ok := in.(*ssa.MakeClosure); ok && mc.Fn == lit && out == nil {
+							if cell, ok := mc.Bindings[i].(*ssa.Alloc); ok {
+								for _, ref := range *cell.Referrers() {
+									if st, ok := ref.(*ssa.Store); ok && st.Addr == ssa.Value(cell) {
+										out = resolveFn(st.Val, d+1)
+									}
+								}
+							} else {
+								out = resolveFn(mc.Bindings[i], d+1)
+							}
+						}
+					})
+					return out
+				}
+			}
+		case *ssa.Call:
+			// a constructor returning a literal: fieldMap(mappings, true)
+			if sc := staticCallee(x); sc != nil && len(sc.AnonFuncs) == 1 {
+				return sc.AnonFuncs[0]
+			}
+		}
+		return nil
+	}
+	n := 0
+	for _, fn := range w.RepoFuncs("compose") {
+		instrs(fn, func(in ssa.Instruction) {
+			c, ok := in.(*ssa.Call)
+			if !ok {
+				return
+			}
+			pf, ok := isInst(c, pack)
+			if !ok || len(pf.TypeArgs()) != 1 {
+				return
+			}
+			x := pf.TypeArgs()[0]
+			if _, isTP := x.(*types.TypeParam); isTP {
+				return
+			}
+			n++
+			construct := fmt.Sprintf("%s packs a stream of %s", w.fname(fn), x.String())
+			if _, isI := x.Underlying().(*types.Interface); !isI {
+				r.OK(rule, construct, c.Pos(), "packed with a concrete chunk type")
+				return
+			}
+			// packed as an interface type: what does the value form yield?
+			conv, ok := c.Call.Args[0].(*ssa.Call)
+			var f *ssa.Function
+			if ok && len(conv.Call.Args) == 2 {
+				f = resolveFn(conv.Call.Args[1], 0)
+			}
+			if f == nil {
+				r.Info(rule, construct, c.Pos(), "chunk type erased to an interface; converting function not resolvable")
+				return
+			}
+			boxed := map[string]bool{}
+			instrs(f, func(fi ssa.Instruction) {
+				ret, ok := fi.(*ssa.Return)
+				if !ok || len(ret.Results) == 0 {
+					return
+				}
+				if mi, ok := returnedValue(ret, 0).(*ssa.MakeInterface); ok {
+					boxed[mi.X.Type().String()] = true
+				}
+			})
+			var bad []string
+			for t := range boxed {
+				if _, ok := strict[t]; ok {
+					bad = append(bad, t)
+				}
+			}
+			sort.Strings(bad)
+			if len(bad) > 0 {
+				r.Fail(rule, construct, c.Pos(), fmt.Sprintf("the converting function %s yields %v, but the stream is packed as a stream of %s: unpackStreamReader[%s] (%s) rejects it — the node's stream converter panics in Stream/Transform runs while Invoke/Collect on the same graph work", w.fname(f), bad, x.String(), bad[0], w.pos(strict[bad[0]])))
+				return
+			}
+			r.Info(rule, construct, c.Pos(), "chunk type erased to an interface; the value form returns its input unchanged (no concrete type established)")
+		})
+	}
+	if n < 3 {
+		undecidedf("%s: only %d concrete packStreamReader sites", rule, n)
+	}
 }
